@@ -60,7 +60,11 @@ def to_scenario(beh, sid):
     stim = []
     for it in beh["script"]:
         if "key" in it:
-            ans["%s#%d" % (it["key"], it["n"])] = records(it["ans"])
+            a = records(it["ans"])
+            if it["key"] == "inst.install" and isinstance(a, dict) and a.get("progress"):
+                # the model counts progress in thousandths, the installer double takes fractions
+                a = dict(a, progress=[x / 1000.0 for x in a["progress"]])
+            ans["%s#%d" % (it["key"], it["n"])] = a
         else:
             do = dict(it["do"])
             if "run" in do and "apps" in do["run"]:
